@@ -371,7 +371,9 @@ class Check:
         self.cov['notes'] = self.notes
         ev = dict(property_id=self.pid, tier=self.tier, seed=self.seed, level=self.level, coverage=self.cov,
                   assumptions=self.assumptions, wall_s=round(time.time() - self.t0, 2), violations=nviol)
-        with open(os.path.join(EVID_DIR, self.pid + '.json'), 'w') as f:
+        evdir = EVID_DIR if not self.args.replay else os.path.join(OUT_DIR, 'replay-evidence')
+        os.makedirs(evdir, exist_ok=True)
+        with open(os.path.join(evdir, self.pid + '.json'), 'w') as f:
             json.dump(ev, f, indent=1, default=str)
         if not self.args.keep:
             shutil.rmtree(self.tmp, ignore_errors=True)
